@@ -541,8 +541,12 @@ def _s6(run, ctx, L, S6):
                         return mm.name
                 return None
             by_fin = {a: emptied_by_finalize(a) for a in acc if a not in reb}
-            bad = {a: w for a, w in acc.items() if a not in reb and (cq, a) not in S6_EXEMPT and not by_fin.get(a)}
-            exempt = [a for a in acc if (cq, a) in S6_EXEMPT and a not in reb]
+            def _exempt(a, w):
+                # by name, or by role: the verdict memo of IgnoreDirectiveParser.is_ignored (an item assignment inside
+                # is_ignored itself), whatever the attribute is called
+                return (cq, a) in S6_EXEMPT or (cq == "src.linter_config.ignore.IgnoreDirectiveParser" and w.split(":")[0] == "is_ignored" and w.endswith("[k]="))
+            bad = {a: w for a, w in acc.items() if a not in reb and not _exempt(a, w) and not by_fin.get(a)}
+            exempt = [a for a, w in acc.items() if _exempt(a, w) and a not in reb]
             if bad:
                 for a, w in sorted(bad.items()):
                     run.finding(S6, f"{sym}:{a}", "accumulates-without-reset", f"{cq}.{a} is accumulated into ({w}) when {e.name}() is called but never re-bound on that entry: the helper object lives as long as the rule, so data from an earlier file or an earlier lint call leaks into later verdicts", e.loc)
